@@ -372,6 +372,24 @@ func TestC19(t *testing.T) {
 		n := 1 + rng.IntN(64)
 		var servers []string
 		seen := map[string]bool{}
+		// half of the lists are numbered replicas (10.0.0.<i> or port 9990+<i>), where natural and byte-wise order differ
+		numbered := rng.IntN(2) == 0
+		numStyle := rng.IntN(2)
+		numName := func(i int) string {
+			if numStyle == 0 {
+				return fmt.Sprintf("10.0.0.%d:11211", i)
+			}
+			return fmt.Sprintf("10.2.3.4:%d", 9990+i)
+		}
+		maxNum := -1
+		for numbered && len(servers) < n {
+			i := rng.IntN(120)
+			if sv := numName(i); !seen[sv] {
+				seen[sv] = true
+				servers = append(servers, sv)
+				maxNum = max(maxNum, i)
+			}
+		}
 		for len(servers) < n {
 			var sv string
 			switch rng.IntN(3) {
@@ -407,12 +425,26 @@ func TestC19(t *testing.T) {
 		if fmt.Sprint(orderA) != fmt.Sprint(orderB) {
 			run.Violation(c, "selector/order-depends-on-input-order", "the same servers given in another order are arranged differently", map[string]any{"a": orderA, "b": orderB})
 		}
-		// append a server; use it only if it is observed last (natural order)
+		// the arrangement is the natural sort of the list (digit runs compare as numbers), whatever the input order
+		wantOrder := append([]string(nil), servers...)
+		sort.Slice(wantOrder, func(i, j int) bool { return naturalLess(wantOrder[i], wantOrder[j]) })
+		if fmt.Sprint(orderA) != fmt.Sprint(wantOrder) {
+			run.Violation(c, "selector/not-naturally-sorted", "the servers are not arranged in natural order", map[string]any{"arranged": orderA, "natural_order": wantOrder})
+			return
+		}
+		// append a server that sorts last in natural order: only keys that move go to it
 		extra := fmt.Sprintf("250.%d.%d.%d:11211", rng.IntN(256), rng.IntN(256), rng.IntN(256))
+		if numbered {
+			extra = numName(maxNum + 1 + rng.IntN(3)) // e.g. .10 after .9, .100 after .99: not last byte-wise
+		}
 		bigger := append(append([]string(nil), sh...), extra)
 		rng.Shuffle(len(bigger), func(i, j int) { bigger[i], bigger[j] = bigger[j], bigger[i] })
 		cc, orderC := mk(bigger)
-		appendOK := cc != nil && len(orderC) == len(orderA)+1 && orderC[len(orderC)-1] == extra && fmt.Sprint(orderC[:len(orderA)]) == fmt.Sprint(orderA)
+		appendOK := cc != nil
+		if cc != nil && !(len(orderC) == len(orderA)+1 && orderC[len(orderC)-1] == extra && fmt.Sprint(orderC[:len(orderA)]) == fmt.Sprint(orderA)) {
+			run.Violation(c, "selector/not-naturally-sorted", fmt.Sprintf("after adding %s, which is last in natural order, the arrangement is not the old one followed by it", extra), map[string]any{"before": orderA, "after": orderC})
+			return
+		}
 		moved, movedToNew := 0, 0
 		for k := 0; k < 10000; k++ {
 			key := fmt.Sprintf("key-%d-%d", c.Idx, rng.Uint64())
@@ -444,4 +476,42 @@ func TestC19(t *testing.T) {
 		_ = sort.Strings
 	})
 	run.Finish(t)
+}
+
+// naturalLess is the harness's own reading of "natural order": the strings are cut into runs of digits and runs of
+// other bytes; runs are compared pairwise, digit runs by numeric value (then by length), other runs byte-wise.
+func naturalLess(a, b string) bool {
+	chunks := func(s string) []string {
+		var out []string
+		for i := 0; i < len(s); {
+			j := i
+			dig := s[i] >= '0' && s[i] <= '9'
+			for j < len(s) && (s[j] >= '0' && s[j] <= '9') == dig {
+				j++
+			}
+			out = append(out, s[i:j])
+			i = j
+		}
+		return out
+	}
+	ca, cb := chunks(a), chunks(b)
+	for i := 0; i < len(ca) && i < len(cb); i++ {
+		x, y := ca[i], cb[i]
+		if x == y {
+			continue
+		}
+		dx, dy := x[0] >= '0' && x[0] <= '9', y[0] >= '0' && y[0] <= '9'
+		if dx && dy {
+			tx, ty := strings.TrimLeft(x, "0"), strings.TrimLeft(y, "0")
+			if len(tx) != len(ty) {
+				return len(tx) < len(ty)
+			}
+			if tx != ty {
+				return tx < ty
+			}
+			return len(x) < len(y)
+		}
+		return x < y
+	}
+	return len(ca) < len(cb)
 }
